@@ -491,6 +491,12 @@ glue! { fn glue_timeout_k2_both_due() { step_timeout_k2::<true, true>(); } }
 /// (limit, kind of message and transport are concrete per instance: with all of them symbolic the
 /// query exceeded 20 GB.)
 fn step_send<const K: usize, const MECH: u8, const REQ: bool, const FULL: bool>() {
+    step_send_x::<K, MECH, REQ, FULL, false>();
+}
+/// OVERDUE: the first live request's deadline has already passed at the send instant and the timer
+/// call for it has not happened yet (a late controller).  The queue model's due flag is only
+/// consulted if the client asks the queue what expired; send_request / send_indication must not.
+fn step_send_x<const K: usize, const MECH: u8, const REQ: bool, const FULL: bool, const OVERDUE: bool>() {
     let limit: usize = if FULL { K } else { K + 1 };
     let mut client = match mk_client(false, MECH, false, limit) { Some(c) => c, None => return };
     let mut live: [Option<Live>; 2] = [None, None];
@@ -506,12 +512,21 @@ fn step_send<const K: usize, const MECH: u8, const REQ: bool, const FULL: bool>(
     let pre_g = unsafe { G };
     let pre_pkt = unsafe { NEXT_PKT };
     unsafe {
+        DUE = [OVERDUE, false];
         RTO_ANS[0] = Some(Duration::from_millis(500));
+        RTO_ANS[1] = any_rto_answer();
         ENV.encode_fails = kani::any();
         AENV.prepare_fails = kani::any();
     }
     let is_req: bool = REQ;
     let t = t0 + any_offset(700);
+    if OVERDUE && K > 0 {
+        match g_entry(ids[0]) {
+            Some(e) => kani::assume(g_exp(&e) <= t),
+            None => {}
+        }
+        kani::cover!(true, "overdue state reachable");
+    }
     let blen: usize = 20; // buffer sizes are concrete (symbolic allocation sizes are out of reach); a too-small buffer = ENV.encode_fails
     let r = if is_req {
         client.send_request(stun_rs::MessageMethod(1), StunAttributes::default(), vec![0u8; blen], t)
@@ -527,6 +542,7 @@ fn step_send<const K: usize, const MECH: u8, const REQ: bool, const FULL: bool>(
                 assert!(full, "C12: refused only when the limit is reached");
                 assert!(n == 0, "C12: a refused request produces no event");
                 assert!(client.transactions.len() == K && unsafe { NEXT_PKT } == pre_pkt, "C12: and no other change");
+                assert!(unsafe { RTO_CALLS } == 0 && g_count() == K, "C12/C06: a refused request leaves schedules and deadlines alone");
             }
             Err(_) => {
                 assert!(!full, "C12: at the limit the error is MaxOutstandingRequestsReached");
@@ -577,6 +593,8 @@ glue! { fn glue_send_k1_req() { step_send::<1, MECH_NONE, true, false>(); } }
 glue! { fn glue_send_k1_req_full() { step_send::<1, MECH_NONE, true, true>(); } }
 glue! { fn glue_send_k1_ind() { step_send::<1, MECH_NONE, false, true>(); } }
 glue! { fn glue_send_k2_req_full() { step_send::<2, MECH_NONE, true, true>(); } }
+glue! { fn glue_send_k1_req_full_overdue() { step_send_x::<1, MECH_NONE, true, true, true>(); } }
+glue! { fn glue_send_k1_req_overdue() { step_send_x::<1, MECH_NONE, true, false, true>(); } }
 glue! { fn glue_send_k1_lt_req() { step_send::<1, MECH_LT, true, false>(); } }
 glue! { fn glue_send_k1_lt_ind() { step_send::<1, MECH_LT, false, false>(); } }
 
@@ -669,6 +687,10 @@ fn step_recv<const K: usize, const MECH: u8, const FP: bool>() {
             i += 1;
         }
         assert!(unsafe { RTT_SAMPLES } == 0 && unsafe { RTT_RESETS } == 0, "C17: RTT estimate unchanged");
+        // the mechanisms change their credential state / learned algorithm exactly when recv_message returns
+        // something other than Discarded (decided on their real code: c07_recv_*, c08_recv_*); so a rejected
+        // buffer must either not reach the mechanism or be discarded by it
+        assert!(unsafe { AENV.mech_recv_calls } == 0 || verdict == Err(IntegrityError::Discarded), "C17: a rejected buffer leaves the credential state and the learned algorithm alone");
         if FP && fp != Ok(true) && decodable && class != MessageClass::Request && (class == MessageClass::Indication || is_live) {
             assert!(unsafe { AENV.mech_recv_calls } == 0, "C10: a message without a valid FINGERPRINT never reaches the credential mechanism");
         }
